@@ -1,6 +1,6 @@
 (** C19 - A recorder returns exactly what was read, and replays it identically. *)
 From Coq Require Import ZArith List Bool.
-From AV Require Import Base.PyList Tok.Model IO.Reader IO.ReaderProofs.
+From AV Require Import Base.PyList Tok.Model IO.Reader IO.ReaderProofs IO.Layers.
 Import ListNotations.
 Open Scope Z_scope.
 
@@ -38,6 +38,14 @@ Proof. exact ReaderProofs.C19_guard_nonrecording. Qed.
 Definition C19_replay_closed := @ReaderProofs.C19_replay_closed.
 Definition C19_consumed := @ReaderProofs.C19_consumed.
 
+(** the recorder of the composed model is [rec_layer] over the raw source -- the layer _Recorder._read_and_cache is proved
+    equal to by translation on every run (TieReader.v) *)
+Theorem C19_recorder_is_layer : forall (S : Type) (r : @rd S) n,
+  recording r = true -> rdata r = None ->
+  snd (base_read r n) = snd (rec_layer (cache r) n (raw_read r))
+  /\ cache (fst (base_read r n)) = fst (rec_layer (cache r) n (raw_read r)).
+Proof. exact (@base_read_is_rec_layer). Qed.
+
 Print Assumptions C19_data.
 Print Assumptions C19_replay.
 Print Assumptions C19_rewind_again.
@@ -45,3 +53,4 @@ Print Assumptions C19_guard_unrewound.
 Print Assumptions C19_guard_nonrecording.
 Print Assumptions C19_replay_closed.
 Print Assumptions C19_consumed.
+Print Assumptions C19_recorder_is_layer.
